@@ -128,11 +128,14 @@ let exec (s : st) (w : string list) : st option =
       | _ -> None)
   | [ "ENQALL"; t ] -> Some (enq_all s (i t))
   | [ "ENQUNTIL"; t; ty; sg; size ] -> Some (enq_until s (i t) ty (i sg) (i size))
+  | [ "ENQN"; t; n ] ->
+      let rec go s n = if n <= 0 then s else (match thr_pc s (i t) with PEnq (_ :: _) -> (match stp s "Enq" (LEnq (i t)) with Some s' -> go s' (n - 1) | None -> s) | _ -> s) in
+      Some (go s (i n))
   | [ "EXPECT_CREATED"; t; n ] -> (match thr_pc s (i t) with PEnq l when List.length l = i n -> Some s | _ -> None)
   | _ -> None
 
 let thread_of w = match w with
-  | ("FETCH" | "FETCHNONE" | "PREM" | "HEAD" | "CHECK" | "RUND" | "RUNC" | "RUNF" | "RUNT" | "RUNR" | "ENQALL" | "ENQUNTIL" | "EXPECT_CREATED") :: t :: _ -> int_of_string t
+  | ("FETCH" | "FETCHNONE" | "PREM" | "HEAD" | "CHECK" | "RUND" | "RUNC" | "RUNF" | "RUNT" | "RUNR" | "ENQALL" | "ENQUNTIL" | "ENQN" | "EXPECT_CREATED") :: t :: _ -> int_of_string t
   | _ -> -1
 
 let () =
